@@ -538,7 +538,7 @@ func explore(cfg *config) int {
 		infra = append(infra, inf...)
 		extra["cross_process_history_oracle"] = st
 	}
-	if cfg.tier == "thorough" || cfg.prop == "C18" {
+	if true {
 		st, inf := determinismSelfTest(cfg)
 		infra = append(infra, inf...)
 		extra["determinism_selftest"] = st
